@@ -29,7 +29,7 @@ type vfrag struct {
 func c01Values(tier string) []vfrag {
 	q := []vfrag{
 		{"absent", ""}, {"int", "1"}, {"str", `"x"`}, {"null", "null"}, {"bool", "true"}, {"float", "2.5"},
-		{"numstr", `"1"`}, {"neg", "-1"}, {"text", `"X y"`},
+		{"numstr", `"1"`}, {"neg", "-9007199254740993"}, {"text", `"X y"`}, // negative and beyond 2^53: must survive the conversion of a mixed column to text exactly
 	}
 	if tier != "thorough" {
 		return q
